@@ -258,35 +258,44 @@ theorem pse_proto (s : St) (c : Nat) (e : SslEv) (h : ProtoErr e) : (processSslE
 connection is bad(EPROTO), no application data moved -/
 theorem C07_btls_handshake_garbage (s : St) (e : SslEv) (hs : s.state = .handshaking) (he : ProtoErr e) :
     (tryFinishHandshake s (.ev e)).state = .bad EPROTO ∧
-    (∀ buf w, (send s buf (.ev e) w).2 = (.err EPROTO, false)) ∧
-    (∀ cap r, (receive s cap (.ev e) r).2 = (.err EPROTO, false)) ∧
-    (∀ l, (finish s (.ev e) l).2 = .err EPROTO) := by
+    (∀ buf w, (send s buf (.ev e) w).2 = (.err EPROTO, 0)) ∧
+    (∀ cap w r, (receive s cap (.ev e) w r).2 = (.err EPROTO, false, 0)) ∧
+    (∀ w l, (finish s (.ev e) w l).2 = (.err EPROTO, 0)) := by
   have hb : (tryFinishHandshake s (.ev e)).state = .bad EPROTO := by
     unfold tryFinishHandshake
     rw [if_neg (by simp [hs])]
     exact pse_proto _ _ _ he
-  refine ⟨hb, fun buf w => ?_, fun cap r => ?_, fun l => ?_⟩
+  refine ⟨hb, fun buf w => ?_, fun cap w r => ?_, fun w l => ?_⟩
   · unfold send; generalize tryFinishHandshake s (.ev e) = s1 at hb; simp only [hb]
   · unfold receive; generalize tryFinishHandshake s (.ev e) = s1 at hb; simp only [hb]
   · unfold finish; generalize tryFinishHandshake s (.ev e) = s1 at hb; simp only [hb]
 
 /-- garbage inside the record stream of an established connection: the receive that meets it reports EPROTO
-and delivers nothing -/
-theorem C07_btls_record_garbage (s : St) (cap : Nat) (h : HAns) (e : SslEv) (hs : s.state = .ready) (he : ProtoErr e) :
-    (receive s cap h (.ev e)).2.1 = .err EPROTO ∧ (receive s cap h (.ev e)).1.state = .bad EPROTO ∧
-    (receive s cap h (.ev e)).1.delivered = s.delivered := by
+and delivers nothing (the flush of retained output that precedes the read is assumed not to have ended the
+connection itself - if it did, that terminal condition is what is reported, see C06) -/
+theorem C07_btls_record_garbage (s : St) (cap : Nat) (h : HAns) (ws : List WAns) (e : SslEv) (hs : s.state = .ready)
+    (hf : (flushPending (s.pend.length + 1) s ws).1.state = .ready) (he : ProtoErr e) :
+    (receive s cap h ws (.ev e)).2.1 = .err EPROTO ∧ (receive s cap h ws (.ev e)).1.state = .bad EPROTO ∧
+    (receive s cap h ws (.ev e)).1.delivered = s.delivered := by
   have ht : tryFinishHandshake s h = s := by unfold tryFinishHandshake; simp [hs]
-  have hb := pse_proto { s with sslCondition := 0, sslWants := 0 } RECEIVABLE e he
-  have f := frame_pse { s with sslCondition := 0, sslWants := 0 } RECEIVABLE e
+  have fc := flush_core (s.pend.length + 1) s ws
   unfold receive
   rw [ht]
-  simp only
-  split
-  · rename_i h'; rw [hs] at h'; cases h'
-  · rename_i h'; rw [hs] at h'; cases h'
-  · rename_i h'; rw [hs] at h'; cases h'
-  · generalize processSslEvent { s with sslCondition := 0, sslWants := 0 } RECEIVABLE e = s3 at hb f
-    exact ⟨by simp only [hb], by simp only [hb], by simp only [hb]; exact f.delivered⟩
+  simp only [hs]
+  cases hfp : flushPending (s.pend.length + 1) s ws with
+  | mk sf rest3 =>
+    obtain ⟨fr, rest, nf⟩ := rest3
+    rw [hfp] at fc hf
+    simp only at hf ⊢
+    simp only [hf]
+    have hb := pse_proto { sf with sslCondition := 0, sslWants := 0 } RECEIVABLE e he
+    have f := frame_pse { sf with sslCondition := 0, sslWants := 0 } RECEIVABLE e
+    unfold readStep
+    simp only
+    generalize processSslEvent { sf with sslCondition := 0, sslWants := 0 } RECEIVABLE e = s3 at hb f
+    exact ⟨by simp only [hb], by simp only [hb], by simp only [hb]; exact f.delivered.trans fc.1.delivered⟩
+
+example : (flushPending 1 ({ state := .ready } : St) []).1.state = .ready := by decide
 
 /-- no assertion of the TLS layer fires, whatever OpenSSL answers (under K-openssl-eagain) -/
 theorem C07_btls_no_abort (auth : Bool) (h0 : HAns) (ops : List Op) (hh : HOk h0) (ho : ∀ op ∈ ops, OpOk op) :
